@@ -226,7 +226,12 @@ def check(case, out):
 
 @st.composite
 def function_cases(draw):
-    U, p = draw(gen.knotvectors(0, 3, 3))
+    if draw(st.integers(0, 3)) == 0:
+        # many spans, degrees up to 4, pieces isolated by full-multiplicity knots: the default sampling of
+        # fit_function has to be unisolvent piece by piece
+        U, p = draw(gen.knotvectors(2, 4, 7))
+    else:
+        U, p = draw(gen.knotvectors(0, 3, 3))
     n = len(U) - p - 1
     return {"U": U, "p": p, "w": draw(gen.pos_weights(n)) if draw(st.integers(0, 4)) < 2 else None,
             "Q": draw(gen.ctrlpoints(n, draw(st.sampled_from([0, 0, 2])))),
